@@ -1918,6 +1918,9 @@ func (clustersim) Generate(rng *Rand, prop, tier string) *Script {
 			if rng.Bool(30) {
 				// a replica fails while the management request is being processed
 				add(Op{K: "later", A: int64(rng.Intn(nreps)), B: int64(rng.Range(20, 3000)), S: []string{"kill", "resetconn"}[rng.Intn(2)]})
+			} else if rng.Bool(30) {
+				// one of the per-replica calls of the management operation is lost (request or response)
+				add(Op{K: "httpfault", A: int64(rng.Intn(nreps)), B: 1, F: rng.Bool(50), C: int64(rng.Intn(4))})
 			}
 			admin()
 			if rng.Bool(30) {
